@@ -334,3 +334,21 @@ func HarnessC14Batch() {
 	verifAssert(sameDecision(res[1], alone2), "C14: a batch entry gets a different answer than the same check alone")
 	closeDeps(deps)
 }
+
+// HarnessC02WidthRespected: of the subject sets one expansion returns, the
+// engine follows at most max-width - 1 when there are more than max-width
+// (ghost accounting: calls of CheckAndAddVisited vs. what the traversal
+// results allow).
+func HarnessC02WidthRespected() {
+	w, qo, qr, qs := symWorld()
+	w.maxDepth = verifChoice(verifParam("Gmax")) + 1
+	w.maxWidth = verifChoice(verifParam("Wmax")) + 1
+	deps := newDeps(w)
+	_ = runCheck(context.Background(), deps, w.tuple(qo, qr, qs), 0)
+	closeDeps(deps)
+	verifReach("c02.width")
+	if verifWidthHit {
+		verifCover("c02.width-binding")
+	}
+	verifAssert(verifVisitedCalls <= verifExpandAllowance, "C02: the engine follows more subject sets of one expansion than max-width allows")
+}
